@@ -97,6 +97,11 @@ pub fn run_circuit(case: &Value) -> Value {
                 match o["o"].as_str().unwrap() {
                     "add_gate" => { b.add_gate(pool[vu(&o["i"])].clone()); outs.push(json!({"k": "none"})); }
                     "add_gates" => { b.add_gates(ids(&o["is"])); outs.push(json!({"k": "none"})); }
+                    // the builder's own helper for a measurement gate: must add exactly Gate::Measurement(basis, qubits as listed)
+                    "measure_gate" => {
+                        if let Gate::Measurement(basis, qs) = &pool[vu(&o["i"])] { b.measure_gate(basis.clone(), qs.clone()); } else { return json!({"r": "harness_error", "e": "measure_gate on a non-measurement pool entry"}); }
+                        outs.push(json!({"k": "none"}));
+                    }
                     "add_sub" => { b.add_subroutine(Subroutine::with_gates(ids(&o["is"]), vu(&o["sn"]))); outs.push(json!({"k": "none"})); }
                     "build" | "build_final" => {
                         let r = if o["o"] == "build" { b.build() } else { b.build_final() };
